@@ -761,7 +761,7 @@ def rule_signature(ctx: Ctx, rid="C09.SIGNATURE"):
                        "helper takes exactly the condition fields; the experiment name is only the def name")
 
 
-def rule_fields_reach_predicates(ctx: Ctx, rid="C02.FIELDS-REACH-PREDICATES"):
+def rule_fields_reach_predicates(ctx: Ctx, rid="C02.FIELDS-REACH-PREDICATES", only_other_field=False):
     """The predicates are evaluated inside the helper on its parameters: each must be bound, at the helper call, to the caller's
     field of the same name as passed in - not to a value derived from it (`str(field)`, a re-bound local of that name)."""
     n = 0
@@ -772,9 +772,15 @@ def rule_fields_reach_predicates(ctx: Ctx, rid="C02.FIELDS-REACH-PREDICATES"):
         own = _prog_ident_names(o.prog)
         bad = [(p, v) for p, v in ir["helper_call_binding"].items() if p in own and v != ("name", p)]
         rebound = [nme for nme in ir.get("main_locals", []) if nme in own and nme in ir["helper_call_binding"]]
+        if only_other_field:
+            # C07: a predicate written for one field is evaluated on the value of ANOTHER field, whose type the source says nothing
+            # about: an ordering comparison or a membership test between values of unrelated types raises TypeError
+            bad = [(p, v) for p, v in bad if v[0] == "name" and v[1] in own]
+            rebound = []
         n += 1
         if bad or rebound:
-            what = (f"the condition field `{bad[0][0]}` reaches the predicates as {_short(bad[0][1], 80)}, not as the caller's value" if bad
+            what = (f"the condition field `{bad[0][0]}` reaches the predicates as {_short(bad[0][1], 80)}, not as the caller's value" if bad and not only_other_field
+                    else f"the predicates on `{bad[0][0]}` are evaluated on the value of the field `{bad[0][1][1]}` (type-compatible inputs for `{bad[0][0]}` then raise TypeError in an ordering comparison)" if bad
                     else f"the field `{rebound[0]}` is re-bound inside the generated function before the predicates read it")
             ctx.rep.bad(rid, con, what + ": comparisons on it (==, in, >=, ...) are made on another value or type",
                         text=f"{o.prog.label}|{what[:90]}", facts={"generated": o.text})
